@@ -166,6 +166,12 @@ def outcomes(gtype, pos, R, size, pnt, vec, delta=1e-9):
     vn = math.sqrt(vec[0] ** 2 + vec[1] ** 2 + vec[2] ** 2)
     mag = math.sqrt(sum((pnt[k] - pos[k]) ** 2 for k in range(3))) + sum(abs(v) for v in pos) + sum(abs(v) for v in pnt)
     dp = max(delta * scale, 4e-12 * mag)
+    if gtype != PLANE:
+        # the quadratic of a far, small shape loses (distance^2 / size) ulps: its discriminant b^2 - a*c is rounded at ulp(b^2), which is
+        # the same as moving the ray sideways by ~eps * distance^2 / (2 * size); hit-or-miss within that displacement is undecided
+        pos_sizes = [abs(v) for v in size if abs(v) > 0]
+        if pos_sizes:
+            dp = max(dp, 4.4e-16 * mag * mag / min(pos_sizes))
     dv = max(delta, 4e-12 * mag / max(scale, 1e-300)) * vn
     res = [ray_shape(gtype, pos, R, size, pnt, vec)]
     for k in range(3):
